@@ -22,6 +22,7 @@ import (
 	"fmt"
 	"io"
 	"os"
+	"regexp"
 	"sort"
 	"strings"
 	"sync"
@@ -353,7 +354,12 @@ func programViolates(src string, stdlib bool) (string, string) {
 	return "", ""
 }
 
+var gensymName = regexp.MustCompile(`gen[0-9]{8}`)
+
 func norm(o el.Outcome) string {
+	// gensym numbers advance with every expansion in the same runtime (per-runtime counters: C07's and C10's subject)
+	o.Text = gensymName.ReplaceAllString(o.Text, "gen#")
+	o.Out = gensymName.ReplaceAllString(o.Out, "gen#")
 	// error TEXT may mention per-runtime ids (C10's subject); compare class + condition + value + stderr
 	if o.IsErr {
 		return "ERR<" + o.Cond + ">" + o.Out
@@ -365,10 +371,10 @@ func tableRouting(r *core.Run) {
 	cs := registry(true)
 	r.Bound("A_callables", len(cs))
 	type job struct {
-		c             callable
-		pos, rt, lit  int
-		mut           int
-		fill          []string
+		c            callable
+		pos, rt, lit int
+		mut          int
+		fill         []string
 	}
 	var jobs []job
 	nfill := 3
@@ -743,8 +749,63 @@ func freeRunning(r *core.Run) {
 	r.Extra("D_free_running_loads", n)
 }
 
+// E. fresh results: a call that builds a container must build a NEW one each time.  A package-level "empty value"
+// handed out by a fast path is process-wide mutable state: the first in-place operation on it is seen by every later
+// call, in every runtime.  For every registered callable x argument tuple the program
+//
+//	(let* ([a (Q ARGS)]) <every in-place operation on a, errors ignored> (format-string "{}" (Q ARGS)))
+//
+// goes through the same oracle as the routing programs (fresh parse vs shared parse loaded twice in one runtime and
+// once in another); ARGS are constructor forms, so every call gets arguments of its own.
+var freshArgs = []string{"()", `(list "a" "b")`, `(vector "b" "a")`, "(vector)", `"s"`, "1", "'vector", "'list", "'bytes", `(sorted-map "k" 1)`, `(to-bytes "ab")`, "(sorted-map)"}
+
+const freshMutations = `(ignore-errors (append! a 9)) (ignore-errors (assoc! a "zz" 9)) (ignore-errors (append-bytes! a "z")) ` +
+	`(ignore-errors (stable-sort (lambda (x y) (string< (to-string y) (to-string x))) a)) (ignore-errors (elpspath:?set! a "$[0]" 7))`
+
+func tableFresh(r *core.Run) {
+	cs := registry(true)
+	var progs []string
+	var owner []string
+	for _, c := range cs {
+		qual := c.name
+		if c.pkg != "lisp" {
+			qual = c.pkg + ":" + c.name
+		}
+		if strings.Contains(c.name, "gensym") || strings.Contains(c.name, "now") || strings.Contains(c.name, "elapsed") {
+			continue
+		}
+		add := func(args string) {
+			call := strings.TrimSpace("(" + qual + " " + args + ")")
+			progs = append(progs, fmt.Sprintf("(let* ([a (ignore-errors %s)]) %s (format-string \"{}\" (ignore-errors %s)))", call, freshMutations, call))
+			owner = append(owner, c.pkg+":"+c.name)
+		}
+		add("")
+		pairArgs := freshArgs
+		if !r.Thorough() {
+			pairArgs = freshArgs[:8]
+		}
+		for _, x := range freshArgs {
+			add(x)
+		}
+		for _, x := range pairArgs {
+			for _, y := range pairArgs {
+				add(x + " " + y)
+			}
+		}
+	}
+	r.Bound("E_fresh_result_programs", len(progs))
+	core.ParallelRange(r, int64(len(progs)), nil, func(_ struct{}, i int64) {
+		r.Nontrivial(progs[i])
+		checkProgram(r, "E-fresh-result", progs[i], true, owner[i])
+		if i%9973 == 5 {
+			r.Sample(rcase{progs[i], true})
+		}
+	})
+	r.AddStates(int64(len(cs)))
+}
+
 func run(r *core.Run) {
-	r.Rule("A: every registered callable of a stdlib runtime x every argument position (<=3) x filler tuple x routing of a program literal into that position (quoted literal, cdr view, slice 'list view, nested element, &rest list, quasiquote output, macro &rest list, append copy, slice 'vector, append 'vector, apply into a &rest list, &rest view, constant top level / constant sub-list / view of a constant sub-list of a quasiquote template, spliced literal, constant part of a macro's template, the &rest list of a macro reached through macroexpand / macroexpand-1 of a quoted form directly and behind pass-through macros) x literal x follow-up mutator (none, stable-sort, append!, sort of the literal itself): shared parse loaded twice in one runtime and once in another vs a fresh parse; " +
+	r.Rule("E: for every registered callable x argument tuple (0..2 constructor forms over 12 values) the result is mutated in place in every way and the call repeated: same oracle as A (process-wide mutable values handed out by fast paths); A: every registered callable of a stdlib runtime x every argument position (<=3) x filler tuple x routing of a program literal into that position (quoted literal, cdr view, slice 'list view, nested element, &rest list, quasiquote output, macro &rest list, append copy, slice 'vector, append 'vector, apply into a &rest list, &rest view, constant top level / constant sub-list / view of a constant sub-list of a quasiquote template, spliced literal, constant part of a macro's template, the &rest list of a macro reached through macroexpand / macroexpand-1 of a quoted form directly and behind pass-through macros) x literal x follow-up mutator (none, stable-sort, append!, sort of the literal itself): shared parse loaded twice in one runtime and once in another vs a fresh parse; " +
 		"B: BFS over all load histories (runtime index per load, canonical numbering) up to the depth bound for every hand-written program; " +
 		"C: every schedule of K runtimes sharing one Program with at most the preemption bound, scheduling point = every evaluation step; invariants evaluated in every global state. Non-trivial: routing programs distinct by text; schedule programs by text")
 	r.Assume("the parsed tree is observed through lisp.SealedASTFingerprint plus an independent structural dump (type, name, numbers, quote/seal flags, positions, children) and lisp.TakeSingletonSnapshot")
@@ -764,6 +825,9 @@ func run(r *core.Run) {
 	if only == "" || only == "D" {
 		freeRunning(r)
 	}
+	if only == "" || only == "E" {
+		tableFresh(r)
+	}
 	if only == "" || only == "A" {
 		tableRouting(r)
 	}
@@ -771,7 +835,7 @@ func run(r *core.Run) {
 
 func replay(v core.Violation) (bool, string) {
 	switch {
-	case strings.HasPrefix(v.Class, "A-routing"), strings.HasPrefix(v.Class, "D-"):
+	case strings.HasPrefix(v.Class, "A-routing"), strings.HasPrefix(v.Class, "D-"), strings.HasPrefix(v.Class, "E-"):
 		k, err := core.CaseOf[rcase](v)
 		if err != nil {
 			return false, err.Error()
